@@ -31,6 +31,8 @@ type st struct {
 	txs, ch            bool
 	hasFlight          bool
 	fl                 flight
+	boot               bool // Lazy.Sys.waiting: still in the start-up wait of AggregationLoop (ch = the one-slot channel)
+	wake               int  // … deadline of its time.After(delay)
 }
 
 const (
@@ -104,7 +106,23 @@ func finish(c cfg, s st) st {
 
 func stepNotify(s st) st { s.ch = true; return s }
 
+// bootSt: Lazy.boot c 0 since — AggregationLoop called `since` ms after the reference instant 0.
+func bootSt(c cfg, since int) st {
+	delay := c.block - since // startDelay, clipped like the subtraction of naturals
+	if delay < 0 {
+		delay = 0
+	}
+	return st{now: since, boot: true, wake: since + delay}
+}
+
 func stepTick(c cfg, s st, pick, dur int) (st, int) {
+	if s.boot { // Lazy.sysStep, waiting
+		if s.now < s.wake {
+			s.now++
+			return s, -1
+		}
+		return st{now: s.now, lazyT: s.now, blockT: s.now, ch: s.ch}, -1 // Lazy.enter
+	}
 	if s.hasFlight {
 		if s.now < s.fl.fin {
 			s.now++
@@ -135,7 +153,10 @@ type script struct {
 	tol, jit, upto int
 	prods          []pspec
 	raw            string
-	guard          int // generator only: see near()
+	since          int    // -1: no start-up wait (the loop proper starts at 0); otherwise AggregationLoop is called `since` ms after the reference instant
+	via            string // "last" (time of the last block before the restart) | "genesis"
+	sn, sp         []int  // NotifyNewTransactions() / probes this many ms after the call of AggregationLoop
+	guard          int    // generator only: see near()
 	frontierCap    int // generator only: give up (finals returns nil) when more runs than this are alive
 }
 
@@ -174,6 +195,9 @@ func (sc *script) probesOf(k int) []int {
 	return nil
 }
 func (sc *script) hasNotifs() bool {
+	if sc.since >= 0 && len(sc.sn) > 0 {
+		return true
+	}
 	for _, p := range sc.prods {
 		if len(p.offs) > 0 {
 			return true
@@ -265,17 +289,22 @@ type ev struct {
 	lo, hi int
 	notif  bool
 	k, j   int
+	pre    bool // scripted relative to the call of AggregationLoop (start-up wait)
 }
 
-func (e ev) key() [5]int {
+func (e ev) key() [6]int {
 	n := 1
 	if e.notif {
 		n = 0
 	}
-	return [5]int{e.hi, e.lo, n, e.k, e.j}
+	p := 0
+	if e.pre {
+		p = 1
+	}
+	return [6]int{e.hi, e.lo, n, e.k, e.j, p}
 }
 
-func lexLe(a, b [5]int) bool {
+func lexLe(a, b [6]int) bool {
 	for i := range a {
 		if a[i] < b[i] {
 			return true
@@ -300,6 +329,12 @@ func insertEv(e ev, l []ev) []ev {
 }
 
 func (e ev) tok() string {
+	if e.pre {
+		if e.notif {
+			return fmt.Sprintf("w%d", e.j)
+		}
+		return fmt.Sprintf("q%d", e.j)
+	}
 	c := "p"
 	if e.notif {
 		c = "n"
@@ -342,6 +377,8 @@ func (x sim) key() string {
 	num(s.fl.start)
 	num(s.fl.fin)
 	flag(s.fl.viaBlock)
+	flag(s.boot)
+	num(s.wake)
 	b = append(b, '|')
 	for _, e := range x.sched {
 		num(e.lo)
@@ -349,6 +386,7 @@ func (x sim) key() string {
 		flag(e.notif)
 		num(e.k)
 		num(e.j)
+		flag(e.pre)
 	}
 	b = append(b, '|')
 	num(x.k)
@@ -388,7 +426,9 @@ func tickWith(c cfg, sc *script, x sim, pick int) sim {
 	y.s = s2
 	now := x.s.now
 	if p < 0 {
-		if x.s.hasFlight && !s2.hasFlight {
+		if x.s.boot && !s2.boot {
+			y.thr = app(x.thr, now) // the start-up wait ended
+		} else if x.s.hasFlight && !s2.hasFlight {
 			y.toks, y.ttimes, y.thr = app(x.toks, fmt.Sprintf("e%d", x.k-1)), app(x.ttimes, now), app(x.thr, now)
 		} else if s2.blockT != x.s.blockT {
 			y.thr = app(x.thr, now) // block tick without transactions
@@ -433,6 +473,9 @@ func deliver(x sim, e ev) sim {
 }
 
 func loopReady(c cfg, s st) bool {
+	if s.boot {
+		return s.wake <= s.now
+	}
 	if s.hasFlight {
 		return s.fl.fin <= s.now
 	}
@@ -453,7 +496,7 @@ func succs(c cfg, sc *script, x sim) []sim {
 	}
 	ready := loopReady(c, x.s)
 	if ready {
-		if x.s.hasFlight {
+		if x.s.boot || x.s.hasFlight {
 			out = append(out, tickWith(c, sc, x, 0))
 		} else {
 			for i := 0; i < len(enabled(c, x.s)); i++ {
@@ -502,6 +545,18 @@ func dedup(l []sim) []sim {
 // finals: the states of every admissible run at `horizon`.
 func finals(c cfg, sc *script, horizon int) []sim {
 	fr := []sim{{}}
+	if sc.since >= 0 {
+		x := sim{s: bootSt(c, sc.since)}
+		for _, e := range mkEvs(sc.jit, sc.since, 0, true, sc.sn) {
+			e.pre = true
+			x.sched = insertEv(e, x.sched)
+		}
+		for _, e := range mkEvs(sc.jit, sc.since, 0, false, sc.sp) {
+			e.pre = true
+			x.sched = insertEv(e, x.sched)
+		}
+		fr = []sim{x}
+	}
 	for fuel := horizon + 1; fuel > 0; fuel-- {
 		if len(fr) == 0 || fr[0].s.now >= horizon {
 			break
